@@ -41,6 +41,68 @@ def run(ctx):
     from rules.c09 import r95
     from rules.c05 import _Renamed
     r95(_Renamed(ctx, 'S13.6'), prog)
+    s13_7(ctx, prog)
+
+
+def s13_7(ctx, prog):
+    """S13.7 who-may-report: the two unbalanced-parenthesis errors are constructed only inside the token-level accounting that S13.3
+    decided (tokens_to_operator_tree and the crate-private `tree::` helpers reached from it); trait impls of the error type itself
+    (Clone, Deserialize) are exempt.  A construction anywhere else is a second, unanalysed place where input can be called unbalanced
+    (a character-level count sees the parentheses inside string literals and comments), so "balanced input is never reported as
+    unbalanced" is no longer decided by S13.3."""
+    from mirlib import path_endswith, short
+    names = ('UnmatchedLBrace', 'UnmatchedRBrace')
+    root = prog.fn('tree::tokens_to_operator_tree')
+    if root is None:
+        ctx.unrecognised('S13.7', 'tokens_to_operator_tree', 'missing', 'tree builder not found')
+        return
+    callers = {}
+    for g in prog.fns:
+        for blk in g.blocks:
+            t = blk['term']
+            if t['k'] == 'call' and t['callee'].get('local'):
+                for d in (t['callee'].get('def'), (t['callee'].get('resolved') or {}).get('def')):
+                    if d:
+                        callers.setdefault(d, set()).add(g.path)
+    allowed = set()
+    todo = [root]
+    while todo:
+        g = todo.pop()
+        if g.path in allowed:
+            continue
+        allowed.add(g.path)
+        for c in prog.closures_of(g.path):
+            todo.append(c)
+        for blk in g.blocks:
+            t = blk['term']
+            if t['k'] == 'call' and t['callee'].get('local'):
+                h = prog.by_path.get(t['callee']['def']) or prog.by_path.get((t['callee'].get('resolved') or {}).get('def'))
+                if h is not None and short(h.path).startswith('tree::') and h.j.get('vis') != 'pub' and not h.j.get('impl_trait'):
+                    todo.append(h)
+    sites = []
+    for g in prog.fns:
+        for blk in g.blocks:
+            if blk['cleanup']:
+                continue
+            for st in blk['stmts']:
+                if st['k'] == 'assign' and st['rv']['k'] == 'aggregate' and st['rv'].get('agg') == 'adt' and path_endswith(st['rv']['adt'], 'error::EvalexprError') and st['rv'].get('vname') in names:
+                    sites.append((g, st['rv']['vname'], st.get('span')))
+    ctx.floor('S13.7', 'brace_error_construction_sites', len(sites), 2)
+
+    def ok(g, depth=0):
+        if g.path in allowed:
+            return True
+        if (g.j.get('impl_self') or '').startswith('error::EvalexprError') or 'error::EvalexprError as' in short(g.path):
+            return True
+        # a constructor function of the error module (no branch, one construction): decided at its callers
+        if depth < 3 and short(g.path).startswith('error::') and sum(1 for b in g.blocks if not b['cleanup']) <= 2:
+            cs = callers.get(g.path, set())
+            return bool(cs) and all(ok(prog.by_path[c], depth + 1) for c in cs if c in prog.by_path)
+        return False
+
+    for g, vn, span in sites:
+        ctx.check(ok(g), 'S13.7', '%s in %s' % (vn, short(g.path)), 'outside-accounting',
+                  '%s is constructed only inside the token-level parenthesis accounting decided by S13.3 (tokens_to_operator_tree and its private tree:: helpers); here it is constructed in %s, which S13.3 did not analyse' % (vn, short(g.path)), span=span)
 
 
 def modes(ctx, prog, T):
